@@ -353,12 +353,31 @@ def rule_bp_mask(ctx, rep):
     pat.require(n >= 3, "bp: only %d accesses to saved_fork_signal_mask found" % n)
 
 
+def rule_child_handover(ctx, rep):
+    """The child merges every inherited queue into its fresh default helper through _call_rcu_data_free(): the hand-over rules
+    of C03 (leftovers spliced under call_rcu_mutex, the helper that *received* them is woken afterwards) are what makes
+    `callbacks queued at fork time run exactly once in the child` - the new helper may already be asleep on an empty queue."""
+    n0 = len(rep.results)
+    c03.rule_handover(ctx, rep)
+    keep = []
+    for r in rep.results[n0:]:
+        if any(k in r["instance"] for k in ("wake-default", "splice", "STOPPED")):
+            r = dict(r)
+            r["key"] = r["key"].replace(r["rule"], "C16.handover")
+            r["rule"] = "C16.handover"
+            keep.append(r)
+    del rep.results[n0:]
+    rep.results += keep
+    pat.require(keep, "hand-over instances vanished")
+
+
 RULES = [
     ("C16.handoff", rule_handoff),
     ("C16.handoff", rule_bp_handoff),
     ("C16.pause", rule_pause),
     ("C16.child", rule_child),
     ("C16.hooks", rule_hooks),
+    ("C16.handover", rule_child_handover),
     ("C16.bpmask", rule_bp_mask),
 ]
 FLOORS = {}
